@@ -51,3 +51,21 @@ for off in (0.0, 20.0, 2000.0):
     print("Triangle(%g, %g, %g) grid %s" % (a, mid, b, pts))
     print("   library :", got)
     print("   exact   :", [float(x) for x in exact(a, mid, b, pts)])
+
+# the same defect in a plain adaptive run at a moderate offset: Triangle(10, 10.01, 10.5), lmin=2, lmax=4
+from sparseSpACE.spatiallyAdaptiveSingleDimension2 import SpatiallyAdaptiveSingleDimensions2
+from sparseSpACE.ErrorCalculator import ErrorCalculatorSingleDimVolumeGuided
+import math
+a, b = np.array([10.0]), np.array([10.5])
+model = FunctionCustom(lambda x: [math.sin(x[0])], output_dim=1)
+op = UncertaintyQuantification(model, [("Triangle", 10.01)], a, b, print_level=100, log_level=100)
+grid = GlobalTrapezoidalGridWeighted(a, b, op, boundary=False)
+op.set_grid(grid)
+op.set_expectation_variance_Function()
+sa = SpatiallyAdaptiveSingleDimensions2(a, b, operation=op, norm=2, grid_surplusses=op.get_grid(), print_level=100, log_level=100)
+try:
+    with contextlib.redirect_stdout(io.StringIO()):
+        sa.performSpatiallyAdaptiv(2, 4, ErrorCalculatorSingleDimVolumeGuided(), tol=0, max_evaluations=40, print_output=False)
+    print("adaptive run Triangle(10, 10.01, 10.5): E, Var =", op.calculate_expectation_and_variance(sa))
+except AssertionError as e:
+    print("adaptive run Triangle(10, 10.01, 10.5), performSpatiallyAdaptiv(2, 4): AssertionError:", e)
